@@ -30,8 +30,10 @@ def sqrt_coslat(lats_deg):
 
 
 def analytic_centered(M):
+    """Analytic signal of each column; the mean of its IMAGINARY part is removed (the real part is the input itself:
+    whether it is centred is the `center` option's business)."""
     H = scipy.signal.hilbert(np.asarray(M).real, axis=0)
-    return H - H.mean(axis=0, keepdims=True)
+    return H - 1j * H.imag.mean(axis=0, keepdims=True)
 
 
 def delay_embed(M, tau, embedding):
